@@ -6,7 +6,7 @@ From ClapModel Require Import Base.Bytes Base.Machine Base.Utf8.
 From ClapModel Require Import Parse.Cmd Parse.Build Parse.Valid Parse.Matcher Parse.Errors Parse.Validator Parse.Parser.
 From ClapModel Require Import ParseProofs.Safe ParseProofs.Invariant ParseProofs.Totality
                               ParseProofs.ValidateTotal ParseProofs.Relations ParseProofs.TotalityMain
-                              ParseProofs.Sites.
+                              ParseProofs.Sites ParseProofs.SitesComplete.
 From ClapModel Require Gen.ParseSites.
 From Coq Require Import ZArith.
 From RecordUpdate Require Import RecordSet.
@@ -134,3 +134,12 @@ Theorem C01_sites_reasoned_rows :
       ("builder/command.rs", "Command::format_group", "unwrap", 0) ]%string.
 Proof. exact sites_reasoned_rows. Qed.
 Print Assumptions C01_sites_reasoned_rows.
+
+(** the converse: the table knows every panic site of the MODEL.  For EVERY definition (valid or not, any class)
+    and every token list, a panic outcome of the model carries a number of a [Modelled] row or of
+    [callee_sites] (callees outside the five files: Arg::get_min_vals, the value parser, OsStrExt::split; the
+    model's own short-loop fuel). *)
+Theorem C01_model_sites_listed : forall c0 toks s,
+  do_parse c0 toks = OPanicked s -> In s (modelled_sites ++ callee_sites).
+Proof. exact model_sites_listed. Qed.
+Print Assumptions C01_model_sites_listed.
